@@ -291,7 +291,7 @@ impl Rasn {
             return Ok(TokenStream::new());
         }
         let mut permitted_alphabet = PerVisibleAlphabetConstraints::default_for(string_type);
-        for c in constraints {
+        for c in constraints.iter().filter(|c| c.restricts_alphabet()) {
             if let Some(mut p) = PerVisibleAlphabetConstraints::try_new(c, string_type)? {
                 permitted_alphabet += &mut p
             }
